@@ -36,9 +36,9 @@ const (
 	allowedExtCSVGZ = ".csv.gz"
 )
 
-// isSafeLookupName reports whether name is a plain file name that stays inside
+// IsSafeLookupName reports whether name is a plain file name that stays inside
 // the lookups directory: no path separators, no "." / ".." and not empty.
-func isSafeLookupName(name string) bool {
+func IsSafeLookupName(name string) bool {
 	if name == "" || name == "." || name == ".." {
 		return false
 	}
@@ -55,7 +55,7 @@ func UploadLookupFile(ctx *fasthttp.RequestCtx) {
 		ctx.Error("File name is required", fasthttp.StatusBadRequest)
 		return
 	}
-	if !isSafeLookupName(fileName) {
+	if !IsSafeLookupName(fileName) {
 		log.Errorf("UploadLookupFile: Invalid file name: %q", fileName)
 		ctx.Error("Invalid file name", fasthttp.StatusBadRequest)
 		return
@@ -184,7 +184,7 @@ func GetAllLookupFiles(ctx *fasthttp.RequestCtx) {
 
 func GetLookupFile(ctx *fasthttp.RequestCtx) {
 	lookupFilename := utils.ExtractParamAsString(ctx.UserValue("lookupFilename"))
-	if !isSafeLookupName(lookupFilename) {
+	if !IsSafeLookupName(lookupFilename) {
 		ctx.Error("Invalid file name", fasthttp.StatusBadRequest)
 		return
 	}
@@ -216,7 +216,7 @@ func GetLookupFile(ctx *fasthttp.RequestCtx) {
 
 func DeleteLookupFile(ctx *fasthttp.RequestCtx) {
 	lookupFilename := utils.ExtractParamAsString(ctx.UserValue("lookupFilename"))
-	if !isSafeLookupName(lookupFilename) {
+	if !IsSafeLookupName(lookupFilename) {
 		ctx.Error("Invalid file name", fasthttp.StatusBadRequest)
 		return
 	}
